@@ -387,6 +387,19 @@ def replay(ob):
                 type(r).__name__, len(set(r.basis_indices)), len(deco), len(set(r.basis_indices)) / len(deco))})
     except Exception as e:  # noqa
         fails.append({"structure": "decorated graphene sheet", "observed": "%s: %s" % (type(e).__name__, e)})
+    # a region that is found but does not cover min_coverage of the atoms: the result is still a two-dimensional class
+    try:
+        from ase.build import fcc100 as _f100c
+        sl = _f100c("Cu", size=(4, 4, 3), vacuum=8)
+        sl += Atoms("O", positions=[sl.get_positions()[-1] + np.array([0.0, 0.0, 1.8])])
+        sl.set_pbc(True)
+        r = Classifier(min_coverage=1.0).classify(sl)
+        wsl = sl.copy(); wsl.wrap()
+        dsl = g.get_dimensionality(wsl, Classifier().cluster_threshold)
+        if dsl == 2 and not isinstance(r, C.Class2D):
+            fails.append({"structure": "Cu(100) 4x4x3 slab with one O adatom, min_coverage=1.0", "observed": "class %s for dimensionality 2" % (type(r).__name__ if r is not None else "None (no classification returned)")})
+    except Exception as e:  # noqa
+        fails.append({"structure": "Cu(100) slab with one O adatom, min_coverage=1.0", "observed": "%s: %s" % (type(e).__name__, e)})
     for name, at in extra + structures():
         # C17 speaks about cells with non-zero volume (or entirely non-periodic structures)
         if name == "degenerate cell" or name.startswith("slab with a zero cell vector"):
